@@ -1,5 +1,5 @@
 (* C06 — Only sender-authorised transactions execute, each exactly once. *)
-From Evm Require Import TxPipe TxPipeExt TxPipeProofs TxPipeDenom TxPipeDenomProofs.
+From Evm Require Import TxPipe TxPipeExt TxPipeProofs TxPipeDenom TxPipeDenomProofs TxPipeSeqProofs TxPipeCountProofs.
 Open Scope Z_scope.
 
 (* whatever passes admission (in any later outcome class) is replay-protected, recovers to the declared sender
@@ -104,4 +104,32 @@ Example C06_example_replay_after_abort :
   map r_out (snd (xrun s [XPanic t 0; XItem (DEth t o (mkDx [] [])); XPanic t 0])) =
     [CoreErr; RejAnte E_INVALID_SEQUENCE; RejAnte E_INVALID_SEQUENCE] /\
   sqn (d_core (xfinal s [XPanic t 0; XItem (DEth t o (mkDx [] [])); XPanic t 0])) 7 = 1.
+Proof. vm_compute. repeat split; reflexivity. Qed.
+
+(* ------------------------------------------------------------------ exact accounting over whole histories
+   (Proofs/TxPipeCountProofs.v).  "Each accepted transaction advances the sender's nonce by exactly one": after ANY
+   list of items from ANY state, every account's sequence is the one it started with plus the number of its Ethereum
+   transactions that passed admission (executed, reverted, failed after admission or dropped for block gas alike) plus
+   the number of its Cosmos-lane transactions whose increment was committed - nothing else ever moves a sequence,
+   rejected transactions count for nothing, and no accepted transaction counts twice. *)
+Theorem C06_sequence_counts_accepted : forall l s a,
+  sqn (final s l) a = sqn s a + eth_accepted a (trace s l) + cosmos_accepted a l.
+Proof. exact sequence_counts_accepted. Qed.
+Print Assumptions C06_sequence_counts_accepted.
+
+Theorem C06_sequence_between : forall l s a,
+  sqn s a <= sqn (final s l) a <= sqn s a + Z.of_nat (length l).
+Proof. exact sequence_between. Qed.
+Print Assumptions C06_sequence_between.
+
+(* non-vacuity: executed transfer, its replay (rejected), a call failing after admission, a Cosmos transaction with a
+   committed increment, one of another payer: account 7 ends at 0 + 2 + 1 *)
+Example C06_example_counts :
+  let s := mkSt (fun a => if a =? 7 then 10^18 else 0) (fun _ => 0) (fun a => a =? 7) (fun _ => false)
+                (5 * 10^18) 1000 0 0 0 0 0 0 false false in
+  let t := mkTx 7 (Some 7) true false 2000 0 0 30000 0 5 false 21000 in
+  let big := mkTx 7 (Some 7) true false 2000 0 0 30000 1 (10^18) false 21000 in
+  let o := mkOut 21000 false 0 [(7, -5); (8, 5)] 0 false in
+  let l := [Eth t o; Eth t o; Eth big (mkOut 21000 false 0 [] 0 false); Cosmos 50000 7 100 true; Cosmos 50000 9 100 true] in
+  eth_accepted 7 (trace s l) = 2 /\ cosmos_accepted 7 l = 1 /\ sqn (final s l) 7 = 3 /\ sqn (final s l) 9 = 1.
 Proof. vm_compute. repeat split; reflexivity. Qed.
